@@ -26,12 +26,18 @@ TimeClasses == DOMAIN TimeTable
 Dims == [fmt : {"ext4", "fat12", "fat16", "fat32", "squashfs", "iso"},
          op  : {"chmod", "chown", "chtimes", "flags", "finalize"},
          cls : Modes \cup Ids \cup TimeClasses \cup {"hidden", "system", "readonly", "archive", "allflags", "setA", "setB", "setC"},
-         tgt : {"file", "dir"}]
-Applicable(t) ==
+         tgt : {"file", "dir"},
+         \* pre: the state the operation starts from - a freshly created node, or one whose attribute of
+         \* the same family already carries an extreme value (mode 7777, ids 4294967294:65535, times 2107)
+         \* set by an earlier call of the same kind ("changing one attribute" must also CLEAR what was there)
+         pre : {"fresh", "max"}]
+Applicable0(t) ==
     \/ t.fmt = "ext4" /\ ((t.op = "chmod" /\ t.cls \in Modes) \/ (t.op = "chown" /\ t.cls \in Ids) \/ (t.op = "chtimes" /\ t.cls \in TimeClasses))
     \/ t.fmt \in {"fat12", "fat16", "fat32"} /\ ((t.op = "chtimes" /\ t.cls \in TimeClasses /\ TimeTable[t.cls].fatm # "-")
                                                   \/ (t.op = "flags" /\ t.cls \in {"hidden", "system", "readonly", "archive", "allflags"} /\ t.tgt = "file"))
     \/ t.fmt \in {"squashfs", "iso"} /\ t.op = "finalize" /\ t.cls \in {"setA", "setB", "setC"} /\ t.tgt = "file"
+Applicable(t) ==
+  (t.pre = "max" => t.fmt = "ext4") /\ Applicable0(t)
 
 \* ---- the frame predicate over one recorded event ----
 \* ev.before / ev.after: [path -> [attribute -> token]] projected through Stat / getters before the
